@@ -17,13 +17,14 @@ import Driver.OpsSys
 import Driver.OpsLinAlg
 import Driver.OpsOptim
 import Driver.OpsInner
+import Driver.OpsMinibex
 open Ibex Ibex.Proto
 
 /-- the handlers, tried in order (each returns `none` for an op it does not know) -/
 def handlers : List (String → List String → List String → Option String) :=
   [Ibex.Driver.opsItv, Ibex.Driver.opsBox, Ibex.Driver.opsBwd, Ibex.Driver.opsExpr, Ibex.Driver.opsCtc,
    Ibex.Driver.opsSym, Ibex.Driver.opsCov, Ibex.Driver.opsBuf, Ibex.Driver.opsSolver, Ibex.Driver.opsEquiv,
-   Ibex.Driver.opsComb, Ibex.Driver.opsNewton, Ibex.Driver.opsLin, Ibex.Driver.opsSys, Ibex.Driver.LA.opsLinAlg, Ibex.Driver.opsOptim, Ibex.Driver.IN.opsInner]
+   Ibex.Driver.opsComb, Ibex.Driver.opsNewton, Ibex.Driver.opsLin, Ibex.Driver.opsSys, Ibex.Driver.LA.opsLinAlg, Ibex.Driver.opsOptim, Ibex.Driver.IN.opsInner, Ibex.Driver.opsMinibex]
 
 def dispatch (op : String) (ins outs : List String) : String :=
   (handlers.findSome? fun h => h op ins outs).getD "bad-op"
